@@ -8,7 +8,7 @@
 From Coq Require Import Sorted.
 From GixV.Base Require Import Bytes BytesFacts Outcome.
 From Coq Require Import Permutation.
-From GixV.C09 Require Import Model ProofsBisect ProofsOrder ProofsLookup ProofsFanout ProofsWrite.
+From GixV.C09 Require Import Model ProofsBisect ProofsOrder ProofsLookup ProofsFanout ProofsWrite ProofsLayout.
 Local Open Scope N_scope.
 
 (* a full-id lookup finds an id exactly when it is present, and the index it returns holds that id;
@@ -77,6 +77,31 @@ Proof. exact L_offset_RT. Qed.
 Theorem be_roundtrip : forall (k : nat) n,
   be_to_N (N_to_be k n) = n mod 256 ^ N.of_nat k /\ length (N_to_be k n) = k.
 Proof. exact L_be_roundtrip. Qed.
+
+(* byte level, pack index: for every entry list with 20-byte ids (fewer than 2^31 entries) and pack hash,
+   the file written by gitoxide's index writer opens, reports the object count, and on ITS BYTES a full-id
+   lookup finds an id exactly when it is among the written ids (returning an index that holds it), and a
+   prefix lookup is the linear scan over the sorted ids (matching interval a..b, None/unique/ambiguous,
+   candidate range), with and without candidates *)
+Theorem index_file_lookups : forall es ph,
+  Forall (fun e => length (eid e) = 20%nat) es -> N.of_nat (length es) <= LARGE_OFFSET_THRESHOLD ->
+  length ph = 20%nat ->
+  let ids := map eid (sort_by cmp_entry_id es) in
+  exists data f,
+    index_write es ph = Ok data /\ index_at data = Ok f /\ inum f = N.of_nat (length es) /\
+    (forall id, exists r, index_lookup f id = Ok r /\
+       match r with
+       | Some m => m < N.of_nat (length es) /\ nth (N.to_nat m) ids [] = id
+       | None => ~ In id (map eid es)
+       end) /\
+    (forall p cands, (4 <= plen p <= 40)%nat -> length (pbytes p) = 20%nat ->
+       exists a b, a <= b /\ b <= N.of_nat (length es) /\
+         (forall i, i < N.of_nat (length es) -> (cmp_oid p (nth (N.to_nat i) ids []) = Eq <-> a <= i < b)) /\
+         index_lookup_prefix cands f p =
+         Ok (if a <? b
+             then (if 1 <? b - a then PAmbiguous else POk a, if cands then Some (a, b) else None)
+             else (PNone, if cands then Some (0, 0) else None))).
+Proof. exact L_index_file_lookups. Qed.
 
 (* non-vacuity, and one byte-level instance end to end: three entries (one offset in the 64-bit
    table), written, opened, looked up by id and by prefix *)
